@@ -16,7 +16,8 @@ CONSTANTS MaxCalls,     \* bound on the number of Next calls per behaviour
           MaxHostSets,
           EmitBeh,      \* TRUE: print maximal behaviours for replay
           MaxSnaps,     \* snapshots taken per behaviour (at any point of the run)
-          MaxRestores   \* restores per behaviour (into the runner in any state)
+          MaxRestores,  \* restores per behaviour (into the runner in any state)
+          MaxRebinds    \* registrations made by the host between calls, per behaviour
 
 Cases == ndJsonDeserialize("cases.ndjson")
 
@@ -38,6 +39,8 @@ IsHostSet(h) == h.ev = "hostset"
 NHost == Len(SelectSeq(hist, IsHostSet))
 IsRestore(h) == h.ev = "restore"
 NRestores == Len(SelectSeq(hist, IsRestore))
+IsRebind(h) == h.ev = "rebind"
+NRebinds == Len(SelectSeq(hist, IsRebind))
 IsOos == s.out.k = "oos"
 
 \* calls made after the first reported end
@@ -96,7 +99,18 @@ RestoreAct ==
        /\ hist' = Append(hist, [ev |-> "restore", h |-> h, ok |-> RestoreOk(P, snaps[h].snap)])
   /\ UNCHANGED <<c, snaps>>
 
-Next == CallAct \/ HostAct \/ SnapAct \/ RestoreAct
+\* ---- registrations between calls: a name that was unknown becomes known, a known one is replaced
+\* (the registrations explored for a program are listed in the case: names its script uses)
+Registered(st, b) == LET m == IF b.what = "f" THEN st.funcs ELSE st.cmds IN b.name \in DOMAIN m /\ m[b.name] = b.kind
+RebindAct ==
+  /\ ~IsOos /\ NRebinds < MaxRebinds /\ NCalls < MaxCalls /\ ~s.ended
+  /\ \E k \in DOMAIN P.rebinds : LET b == P.rebinds[k] IN
+       /\ ~Registered(s, b)
+       /\ s' = Rebind(s, b.what, b.name, b.kind)
+       /\ hist' = Append(hist, [ev |-> "rebind", what |-> b.what, name |-> b.name, kind |-> b.kind])
+  /\ UNCHANGED <<c, snaps>>
+
+Next == CallAct \/ HostAct \/ SnapAct \/ RestoreAct \/ RebindAct
 Spec == Init /\ [][Next]_vars
 
 \* ------------------------------------------------------ C01: refinement of Sem
@@ -115,7 +129,7 @@ Flat(q, i, f) == IF i > Len(q) THEN <<>> ELSE q[i][f] \o Flat(q, i + 1, f)
 \* Every program, every choice sequence, every completion schedule: the machine
 \* presents exactly what the declarative semantics prescribes (no host writes).
 FlowRefinesSem ==
-  (NHost = 0 /\ NRestores = 0 /\ ~IsOos /\ NCalls > 0) =>
+  (NHost = 0 /\ NRestores = 0 /\ NRebinds = 0 /\ ~IsOos /\ NCalls > 0) =>
     \* the machine has presented Len(Shown) outputs; while a command is pending it
     \* has also executed everything up to that command
     LET m == SemRun(P, Choices, CmdErrs, IF s.cmd.st = "run" THEN -1 ELSE Len(Shown)) IN
